@@ -263,6 +263,10 @@ impl TypeInfoContext {
 
 fn keep_parentheses(internal_type: &TypeInfo, context: TypeInfoContext) -> bool {
     match internal_type {
+        // A leading `|` / `&` is not accepted everywhere a type is [e.g. not in `A | | B | C` or `() -> | B | C`]:
+        // a union / intersection written with one keeps its parentheses
+        TypeInfo::Union(union) if union.leading().is_some() => true,
+        TypeInfo::Intersection(intersection) if intersection.leading().is_some() => true,
         TypeInfo::Callback { .. }
             if context.within_optional
                 || context.within_variadic
